@@ -449,3 +449,36 @@ def r14_enumerate(text):
 
 
 REWRITES['R14'] = r14_enumerate
+
+def r15_string_and_to(text):
+    """R15: `"lit".to_string()` -> `string_of("lit")` (a String built from a literal; the text
+    of diagnostics plays no role), and prelude::Postfix `E.to::<T>()` -> `T::from(E)`."""
+    n = 0
+    toks = lex(text)
+    out = []
+    i = 0
+    # string literal followed by .to_string()
+    pat = re.compile(r'\s*\.\s*to_string\(\)')
+    res = ''
+    pos = 0
+    for t in toks:
+        if t[0] == 'str' and t[2] >= pos:
+            m = pat.match(text, t[3])
+            if m:
+                res += text[pos:t[2]] + 'string_of(' + t[1] + ')'
+                pos = m.end()
+                n += 1
+    res += text[pos:]
+    text = res
+    while True:
+        m = re.search(r'\.\s*to::<([^<>()]*(?:<[^<>()]*>)?)>\(\)', text)
+        if not m:
+            break
+        rs = _receiver_start(text, m.start())
+        recv = text[rs:m.start()].strip()
+        text = text[:rs] + m.group(1) + '::from(' + recv + ')' + text[m.end():]
+        n += 1
+    return text, n
+
+
+REWRITES['R15'] = r15_string_and_to
